@@ -52,18 +52,25 @@ def cases(tier, seed):
         out.append({'kind': 'sp', 'g': ['er', n, float(rs.choice([.3, .5, .7, .9])), d, int(rs.randint(1 << 30))], 'directed': d,
                     'ws': seed * 1000 + t, 'schemes': ['int', 'dyad', 'decimal'] if t % 2 else ['decimal']})
     # the same with 20-40 nodes (longer routes: a Pmat route may have several more connections than any counted one)
-    for t in range(12000 if thorough else 2500):
+    for t in range(12000 if thorough else 1500):
         n = int(rs.randint(20, 41))
         d = bool(t % 2)
         out.append({'kind': 'sp', 'g': ['er', n, float(rs.choice([.1, .15, .25, .4])), d, int(rs.randint(1 << 30))], 'directed': d,
                     'ws': seed * 1000 + t, 'schemes': ['decimal'], 'big': True})
     # lengths that are absorbed in a float sum (1e-17 next to 0.5): exact ties between routes with different numbers
     # of connections, and sums that do not grow along a route
-    for t in range(20000 if thorough else 4000):
+    for t in range(20000 if thorough else 1000):
         n = int(rs.randint(6, 13))
         d = bool(t % 2)
         out.append({'kind': 'sp', 'g': ['er', n, float(rs.choice([.25, .4, .6])), d, int(rs.randint(1 << 30))], 'directed': d,
                     'ws': seed * 1000 + t, 'schemes': ['absorb']})
+    # ... and the five-value mix on 26-40 nodes, where routes are long enough for a stale count to be inherited (measured:
+    # a one-pass recount of hops is wrong on ~10 % of these graphs, on < 0.3 % of the 6-16 node ones)
+    for t in range(1500 if thorough else 300):
+        n = int(rs.randint(26, 41))
+        d = bool(t % 2)
+        out.append({'kind': 'sp', 'g': ['er', n, float(rs.choice([.15, .3])), d, int(rs.randint(1 << 30))], 'directed': d,
+                    'ws': seed * 1000 + t, 'schemes': ['absorb5'], 'big': True})
     # navigation
     for t in range(200 if thorough else 60):
         n = int(rs.randint(4, nmax + 1))
@@ -151,7 +158,7 @@ def run_sp(case, bct, REC):
             if bool(np.any(E[np.isfinite(E)] == 0)):
                 cls = ('zero_length_edge',)
             elif case.get('big'):
-                cls = ('one_decimal_20_to_40_nodes',)
+                cls = ('one_decimal_20_to_40_nodes',) if sc == 'decimal' else ('absorbed_lengths_26_to_40_nodes',)
             elif sc == 'absorb':
                 cls = ('absorbed_lengths',)
             else:
